@@ -185,6 +185,10 @@ def marker_discipline(ctx, rep):
     rep.fn(b.name)
     state = [i for i, l in enumerate(b.locals) if l["ty"] == "&encoding_rs::Encoding" and len(b.defs().get(i, [])) > 1]
     ctrl = [i for i, l in enumerate(b.locals) if l["ty"] == "char" and l.get("name") and len(b.defs().get(i, [])) > 1 and "control" in (l["name"] or "")]
+    if not state:
+        # the state may be a small struct that pairs the identifier with its table (`struct Active { control, encoding }`)
+        if struct_state(ctx, rep, b):
+            return
     rep.check("R10.6", "state-locals", len(state) == 1, "expected one mutable `&Encoding` state variable in to_lossy_bytes (found %d)" % len(state), b.loc(), nontrivial=False)
     if len(state) != 1:
         return
@@ -220,6 +224,79 @@ def marker_discipline(ctx, rep):
             rep.check("R10.6", "switch:%s:%d" % (b.locals[loc_].get("name") or loc_, ordn), ok, "to_lossy_bytes: " + detail, b.loc(d[3]["line"] if d[0] == "stmt" else d[2]["line"]),
                       sample={"state": b.locals[loc_].get("name"), "block": bb})
     rep.floor("R10.6", 2)
+
+
+def struct_state(ctx, rep, b):
+    """R10.6 when the encoder keeps its state in one struct value: (1) every construction of that struct in the workspace stores
+    `c.as_lfs_codepage()` of the very `c` it stores as the identifier, so identifier and table cannot disagree; (2) every in-loop
+    assignment to the state is dominated by a push of the caret and a push of a byte derived from the value being assigned."""
+    from mirq import fmt_origin, strip_refs
+    cands = []
+    for i, l in enumerate(b.locals):
+        st = ctx.mir.structs.get(l["ty"])
+        if st and any("encoding_rs::Encoding" in f["ty"] for f in st["fields"]) and any(f["ty"] in ("char", "u8") for f in st["fields"]) and len(b.defs().get(i, [])) > 1:
+            cands.append(i)
+    if len(cands) != 1:
+        return False
+    loc_ = cands[0]
+    ty = b.locals[loc_]["ty"]
+    fields = ctx.mir.structs[ty]["fields"]
+    fi_enc = next(i for i, f in enumerate(fields) if "encoding_rs::Encoding" in f["ty"])
+    fi_ctl = next(i for i, f in enumerate(fields) if f["ty"] in ("char", "u8"))
+    # (1) constructions
+    built = 0
+    ok1 = True
+    for name in sorted(ctx.mir.bodies):
+        if name.endswith("#promoted") or not name.startswith("insim_core::string::"):
+            continue
+        fb = ctx.mir.body(name)
+        if fb is None:
+            continue
+        for bl in fb.blocks:
+            for st_ in bl["stmts"]:
+                if st_["k"] == "assign" and st_["rv"]["k"] == "agg" and st_["rv"].get("adt") == ty:
+                    built += 1
+                    oc = strip_refs(fb.origin(st_["rv"]["ops"][fi_ctl]))
+                    oe = fb.origin(st_["rv"]["ops"][fi_enc])
+                    calls = [c for c in fb.may_calls(oe) if (c[1] or "").endswith("as_lfs_codepage")]
+                    good = bool(calls)
+                    for c in calls:
+                        a = strip_refs(c[3][0]) if c[3] else None
+                        while a is not None and a[0] == "deref":
+                            a = strip_refs(a[1])
+                        good = good and a == oc
+                    ok1 = ok1 and good
+    rep.check("R10.6", "state:%s:paired" % ty.split("::")[-1], built >= 1 and ok1,
+              "every construction of %s must store `c.as_lfs_codepage()` of the `c` it stores as the identifier (%d constructions)" % (ty, built), b.loc(),
+              sample={"state_type": ty, "constructions": built})
+    # (2) in-loop switches
+    heads = b.loop_heads()
+    pushes = b.calls_to(r"Vec::<T(, A)?>::push$")
+    n = 0
+    for d in b.defs().get(loc_, []):
+        bb = d[1]
+        if not any(b.dominates(h, bb) for h in heads):
+            continue
+        if d[0] == "stmt" and d[3]["place"]["p"]:
+            rep.fail("R10.6", "switch:field-store", "a single field of the encoder's state is assigned: identifier and table can disagree", b.loc(d[3]["line"]))
+            continue
+        so = b.origin(d[3]["rv"]["x"]) if d[0] == "stmt" and d[3]["rv"]["k"] == "use" else (("call", callee(d[2])[0], None, [b.origin(a) for a in d[2]["args"]], d[1], []) if d[0] == "call" else ("rv",))
+        doms = [(pb, pt) for pb, pt in pushes if b.dominates(pb, bb) and any(b.dominates(h, pb) for h in heads)]
+        caret = [x for x in doms if b.origin(x[1]["args"][1])[0] == "call" and b.origin(x[1]["args"][1])[1].endswith("lfs_control_char")]
+        letter = [x for x in doms if b.origin(x[1]["args"][1])[0] == "cast"]
+        ok = bool(caret) and bool(letter)
+        detail = "the active codepage is changed without emitting a `^X` marker first"
+        if ok:
+            lo = strip_refs(b.origin(letter[-1][1]["args"][1])[4])
+            base = lo[1] if lo[0] == "field" else lo
+            ok = _mentions(so, strip_refs(base)) or strip_refs(base) == strip_refs(so) or fmt_origin(strip_refs(base)) in fmt_origin(so)
+            detail = "the marker letter written (%s) is not taken from the state being switched to (%s)" % (fmt_origin(lo), fmt_origin(so))
+        rep.check("R10.6", "switch:%s:%d" % (b.locals[loc_].get("name") or loc_, n), ok, "to_lossy_bytes: " + detail, b.loc(d[3]["line"] if d[0] == "stmt" else d[2]["line"]),
+                  sample={"state": b.locals[loc_].get("name"), "block": bb})
+        n += 1
+    rep.check("R10.6", "state-locals", True, "", b.loc(), nontrivial=False, sample={"state": "struct %s" % ty})
+    rep.floor("R10.6", 2)
+    return True
 
 
 def _paired_by_producer(ctx, lo, so):
